@@ -86,10 +86,48 @@ def gen_tree(rng, max_depth=3, fanout=3, opts_by_depth=None):
     return {"commands": cmds, "global_flag": rng.random() < 0.8}
 
 
-def _configure(cfg, spec, handler_for=None, path=()):
+def _alias_ops(cfg, spec, path, shared):
+    """aliases configured through the other public setters, with caller-owned list objects (`spec["alias_ops"]`):
+      ["add", a]  ["adds", [..]]  ["set", [..]]      add_alias / add_aliases / set_aliases with a fresh list
+      ["set_list", key, value]  ["adds_list", key, value]   set_aliases / add_aliases with THE list object `key` the
+                                  caller keeps (created with `value` when first used) - the same object may be handed
+                                  to several commands
+      ["append_list", key, a]   the caller appends to its own list `key` afterwards
+      ["set_from", other_path, value]   set_aliases(other.aliases) - the list another command's config hands out
+    What a command is configured with is what the calls said at the time they were made (value semantics)."""
+    lists, cfgs = shared.setdefault("lists", {}), shared.setdefault("cfgs", {})
+    for op in spec["alias_ops"]:
+        k = op[0]
+        if k == "add":
+            cfg.add_alias(op[1])
+        elif k == "adds":
+            cfg.add_aliases(list(op[1]))
+        elif k == "set":
+            cfg.set_aliases(list(op[1]))
+        elif k == "set_list":
+            cfg.set_aliases(lists.setdefault(op[1], list(op[2])))
+        elif k == "adds_list":
+            cfg.add_aliases(lists.setdefault(op[1], list(op[2])))
+        elif k == "append_list":
+            if op[1] in lists:
+                lists[op[1]].append(op[2])
+        elif k == "set_from":
+            other = cfgs.get(tuple(op[1]))
+            cfg.set_aliases(other.aliases if other is not None else list(op[2]))
+        else:
+            raise ValueError("alias op %r" % (op,))
+    cfgs[tuple(path) + (spec["name"],)] = cfg
+
+
+def _configure(cfg, spec, handler_for=None, path=(), shared=None):
     from clikit.api.args.format.argument import Argument  # noqa
-    for a in spec["aliases"]:
-        cfg.add_alias(a)
+    if shared is None:
+        shared = {}
+    if "alias_ops" in spec:
+        _alias_ops(cfg, spec, path, shared)
+    else:
+        for a in spec["aliases"]:
+            cfg.add_alias(a)
     if spec["anonymous"]:
         cfg.anonymous()
     elif spec["default"]:
@@ -117,8 +155,20 @@ def _configure(cfg, spec, handler_for=None, path=()):
                          pc.dec(a.get("default")))
     if handler_for is not None:
         cfg.set_handler(handler_for(tuple(path) + (spec["name"],)))
+    if spec.get("subs_via") == "bulk":
+        # the sub-commands are configured on their own and attached with ONE call of the bulk adder; the list handed
+        # over stays the caller's: what is appended to it afterwards is not a sub-command
+        from clikit.api.config.command_config import CommandConfig
+        mine = []
+        for s in spec["subs"]:
+            sub = CommandConfig(s["name"])
+            _configure(sub, s, handler_for, tuple(path) + (spec["name"],), shared)
+            mine.append(sub)
+        cfg.add_sub_command_configs(mine)
+        mine.append(CommandConfig("decoy"))
+        return
     for s in spec["subs"]:
-        _configure(cfg.create_sub_command(s["name"]), s, handler_for, tuple(path) + (spec["name"],))
+        _configure(cfg.create_sub_command(s["name"]), s, handler_for, tuple(path) + (spec["name"],), shared)
 
 
 def build_app(tree, config=None, handler=None, handler_for=None, catch=False):
@@ -137,8 +187,19 @@ def build_app(tree, config=None, handler=None, handler_for=None, catch=False):
         config.set_handler(handler)
     if tree.get("global_flag"):
         config.add_option("gflag", "g")
+    shared = {}
+    if tree.get("commands_via") == "bulk":
+        from clikit.api.config.command_config import CommandConfig
+        mine = []
+        for c in tree["commands"]:
+            cc = CommandConfig(c["name"])
+            _configure(cc, c, handler_for, (), shared)
+            mine.append(cc)
+        config.add_command_configs(mine)
+        mine.append(CommandConfig("decoy"))
+        return ConsoleApplication(config)
     for c in tree["commands"]:
-        _configure(config.create_command(c["name"]), c, handler_for)
+        _configure(config.create_command(c["name"]), c, handler_for, (), shared)
     return ConsoleApplication(config)
 
 
